@@ -509,6 +509,9 @@ pub enum Member {
 	Result(J),
 	ErrorOk { code: i32, message: String, data: Option<J> },
 	Unknown(String, J),
+	/// an error object whose code is an integer no i32 holds (acceptance is not judged; what is accepted must still be
+	/// what the text says)
+	ErrorWide { code: i64, message: String },
 }
 
 #[derive(Clone, Debug, Serialize, Deserialize)]
@@ -528,6 +531,19 @@ pub fn arb_member(d: u32) -> BoxedStrategy<Member> {
 		5 => arb_json(d).prop_map(Member::Result),
 		4 => (arb_code(), arb_string(8), proptest::option::of(arb_json(2))).prop_map(|(code, message, data)| Member::ErrorOk { code, message, data }),
 		2 => ("[a-z]{1,5}".prop_filter("unknown", |k| !["jsonrpc", "id", "result", "error"].contains(&k.as_str())), arb_json(2)).prop_map(|(k, v)| Member::Unknown(k, v)),
+		1 => (arb_wide_code(), arb_string(4)).prop_map(|(code, message)| Member::ErrorWide { code, message }),
+	]
+	.boxed()
+}
+
+/// integers outside i32: the neighbours of its bounds, every i32 code shifted by a multiple of 2^32 (what a narrowing cast
+/// would fold onto a real code), the bounds of i64
+pub fn arb_wide_code() -> BoxedStrategy<i64> {
+	let shift = prop_oneof![Just(1i64 << 32), Just(-(1i64 << 32)), Just(1i64 << 33), Just(-(1i64 << 33)), Just(1i64 << 40), Just(-(1i64 << 62))];
+	prop_oneof![
+		2 => proptest::sample::select(vec![1i64 << 31, (1i64 << 31) + 1, -(1i64 << 31) - 1, 1i64 << 32, (1i64 << 32) - 1, -(1i64 << 32), i64::MAX, i64::MIN]),
+		4 => (arb_code(), shift).prop_map(|(c, s)| c as i64 + s),
+		1 => any::<i64>().prop_filter("outside i32", |c| i32::try_from(*c).is_err()),
 	]
 	.boxed()
 }
@@ -551,6 +567,9 @@ pub fn render_members(members: &[Member], tape: &[u8]) -> String {
 				m.push(("error".into(), J::Obj(e)));
 			}
 			Member::Unknown(k, v) => m.push((k.clone(), v.clone())),
+			Member::ErrorWide { code, message } => {
+				m.push(("error".into(), J::Obj(vec![("code".to_string(), J::num(code)), ("message".to_string(), J::str(message.clone()))])));
+			}
 		}
 	}
 	J::Obj(m).styled(&mut Style::new(tape.to_vec()))
@@ -626,7 +645,8 @@ impl SubCheck for ParserStrictness {
 			arb_gid().prop_map(Member::IdIn),
 			prop_oneof![
 				arb_json(d).prop_map(Member::Result),
-				(arb_code(), arb_string(8), proptest::option::of(arb_json(2))).prop_map(|(code, message, data)| Member::ErrorOk { code, message, data })
+				(arb_code(), arb_string(8), proptest::option::of(arb_json(2))).prop_map(|(code, message, data)| Member::ErrorOk { code, message, data }),
+				(arb_wide_code(), arb_string(4)).prop_map(|(code, message)| Member::ErrorWide { code, message })
 			],
 			proptest::collection::vec(arb_member(d), 0..3),
 			proptest::collection::vec(any::<u16>(), 8),
@@ -646,13 +666,15 @@ impl SubCheck for ParserStrictness {
 		let text = render_members(&case.members, &case.tape);
 		let j = parse_strict(text.as_bytes()).expect("rendered text is JSON");
 		let want = response_should_be_accepted(&j);
-		obs.class(if want { "accept" } else { "reject" });
+		// an error member outside the error object's own domain (code no i32 holds): acceptance is not judged
+		let judged = error_member_well_formed(&j);
+		obs.class(if !judged { "error-code-outside-i32" } else if want { "accept" } else { "reject" });
 		if case.members.len() >= 3 {
 			obs.nontrivial();
 		}
 		let got = serde_json::from_str::<Response<&RawValue>>(&text);
 		let got_ok = got.is_ok();
-		obs.check(got_ok == want, if want { "parser/rejects-valid-response" } else { "parser/accepts-invalid-response" }, || {
+		obs.check(!judged || got_ok == want, if want { "parser/rejects-valid-response" } else { "parser/accepts-invalid-response" }, || {
 			format!("{text} => accepted={got_ok}, expected={want}; err={:?}", got.as_ref().err().map(|e| e.to_string()))
 		});
 		if let Ok(rp) = got {
@@ -673,7 +695,7 @@ impl SubCheck for ParserStrictness {
 		// typed payload must agree on acceptance as well
 		let parsed_v = serde_json::from_str::<Response<serde_json::Value>>(&text);
 		let got_v = parsed_v.is_ok();
-		obs.check(got_v == want, "parser/value-typed-disagrees", || format!("{text} => accepted={got_v}, expected={want}"));
+		obs.check(!judged || got_v == want, "parser/value-typed-disagrees", || format!("{text} => accepted={got_v}, expected={want}"));
 		// what was parsed is the same value once it has been detached from the text (both clients do that to every
 		// response before anybody looks at it)
 		if let Ok(rp) = parsed_v {
@@ -845,6 +867,43 @@ pub fn error_codes(ctx: &mut Ctx) {
 		ctx.add_distinct(hash_of(&("code", c)));
 	}
 	ctx.add_sample(json!({"sub": "error-codes", "case": "all i32 c: ErrorCode::from(c).code()==c; named kinds k: ErrorCode::from(k.code())==k"}));
+	// integers on the wire that no i32 holds: whatever reads one as an error kind cannot map it back to the same integer,
+	// so such a code is either refused or (should the code type ever widen) read as exactly that integer
+	let mut wide: Vec<i128> = vec![1 << 31, (1 << 31) + 1, -(1 << 31) - 1, 1 << 32, (1 << 32) - 1, -(1i128 << 32), i64::MAX as i128, i64::MIN as i128, u64::MAX as i128];
+	for c in named_codes.iter().copied().chain([0, 1, -1, -32000, -32099, i32::MAX, i32::MIN]) {
+		for s in [1i128 << 32, -(1i128 << 32), 1 << 33, -(1i128 << 33)] {
+			wide.push(c as i128 + s);
+		}
+	}
+	for w in wide {
+		ctx.add_evaluations(3);
+		ctx.add_distinct(hash_of(&("wide", w as i64, (w >> 64) as i64)));
+		let mut seen: Vec<(&str, i32)> = vec![];
+		if let Ok(k) = serde_json::from_str::<ErrorCode>(&w.to_string()) {
+			seen.push(("ErrorCode", k.code()));
+		}
+		let obj = format!(r#"{{"code":{w},"message":"m"}}"#);
+		if let Ok(e) = serde_json::from_str::<ErrorObjectOwned>(&obj) {
+			seen.push(("ErrorObject", e.code()));
+		}
+		let resp = format!(r#"{{"jsonrpc":"2.0","error":{obj},"id":1}}"#);
+		if let Ok(r) = serde_json::from_str::<Response<&RawValue>>(&resp) {
+			if let ResponsePayload::Error(e) = &r.payload {
+				seen.push(("Response", e.code()));
+			}
+		}
+		for (what, got) in seen {
+			if got as i128 != w {
+				ctx.violation_raw(
+					"error-codes",
+					"error-code-wire-integer-not-preserved",
+					&format!("the integer {w} on the wire was read by {what} as the error code {got}"),
+					json!({"wire": w.to_string(), "read_by": what, "code": got}),
+				);
+			}
+		}
+	}
+	ctx.note_class("error-codes:wire-integers-outside-i32", 1);
 	for (c, d) in bad {
 		let sig = if named_codes.contains(&c) {
 			let k = named.iter().find(|k| k.code() == c).unwrap();
